@@ -127,6 +127,12 @@ def body_tdvp(c):
     cap = kw.get('max_rank', 50)
     th = kw.get('threshold', 1e-12)
     truncating = m != 'tdvp1site' and ((cap < max(mr) and not product) or th > 1e-12)
+    if m == 'tdvp' and list(x0.ranks) == mr and not product:
+        # the rank-adaptive scheme only takes a two-site move on a bond whose rank can still grow; at maximal ranks every bond is
+        # treated by the (exact) one-site move, so neither a small max_rank nor a coarse threshold is an effective truncation
+        truncating = False
+        if cap < max(mr) or th > 1e-12:
+            lab.add('hybrid_cap_below_ranks')
     if truncating:
         lab.add('truncating')
     e0 = np.real(np.vdot(v0, H @ v0))
@@ -140,7 +146,7 @@ def body_tdvp(c):
         got = dense.matrix(s.cores).reshape(-1)
         require(np.all(np.isfinite(got)), 'finite', 'non-finite state')
         if m != 'tdvp1site':
-            lim = max(cap, max(c['ranks']))
+            lim = max(cap, max(x0.ranks))
             require(max(s.ranks) <= lim, 'rank_cap', 'ranks %s exceed max_rank %s' % (s.ranks, cap))
         if maximal and not truncating:
             close(got, v, 1e-10, 1.0, 'exact_at_full_rank', '%s state %d vs expm(-i t H) x0' % (m, k))
@@ -163,7 +169,7 @@ def body_tdvp(c):
 def krylov_case(draw):
     dims = draw(st.sampled_from([d for d in DIMS if int(np.prod(d)) <= 16]))
     return {'dims': dims, 'cplx': draw(st.booleans()), 'seed': draw(gen.SEED), 'h': draw(st.sampled_from([0.05, 0.2, 0.5, 1.0])),
-            'rank': draw(st.sampled_from(['maximal', 'rank1', 'two']))}
+            'rank': draw(st.sampled_from(['maximal', 'rank1', 'two'])), 'norm': draw(st.sampled_from([1.0, 1.0, 2.0, 0.5, 1e-6, 1e4]))}
 
 
 def body_krylov(c):
@@ -175,10 +181,13 @@ def body_krylov(c):
     mr = dense.max_ranks(dims)
     ranks = mr if c['rank'] == 'maximal' else ([1] * (d + 1) if c['rank'] == 'rank1' else [1] + [min(2, r) for r in mr[1:-1]] + [1])
     x0 = initial_state(rng, dims, ranks, c['cplx'])
+    if c.get('norm', 1.0) != 1.0:
+        # the equation is linear: an initial value ("initial value for ODE") of norm 2 or 1e-6 evolves like one of norm 1
+        x0.cores[0] = x0.cores[0] * c['norm']
     v0 = dense.matrix(x0.cores).reshape(-1).astype(complex)
     # generic start vector: components along all eigenvectors (otherwise the Krylov space is smaller than N)
     w, V = np.linalg.eigh(H)
-    coef = np.abs(V.conj().T @ v0)
+    coef = np.abs(V.conj().T @ v0) / np.linalg.norm(v0)
     assume(coef.min() > 1e-3 and np.min(np.diff(w)) > 1e-3)
     snaps = [(t, build.snapshot(t)) for t in (op, x0)]
     s = ode.krylov(op, x0, N, c['h'])
@@ -188,8 +197,10 @@ def body_krylov(c):
     require(s.row_dims == dims, 'dims', 'rows %s' % s.row_dims)
     got = dense.matrix(s.cores).reshape(-1)
     want = sla.expm(-1j * c['h'] * H) @ v0
-    close(got, want, 1e-7, 1.0, 'krylov_exact', 'Krylov (full dimension %d) vs expm(-i h H) x0' % N)
+    close(got, want, 1e-7, float(np.linalg.norm(v0)), 'krylov_exact', 'Krylov (full dimension %d) vs expm(-i h H) x0' % N)
     lab = {'krylov', 'ranks_' + c['rank']}
+    if c.get('norm', 1.0) != 1.0:
+        lab.add('unnormalised_start')
     if c['cplx']:
         lab.add('complex')
     if d >= 3:
@@ -206,5 +217,5 @@ SUBCHECKS = [
         classes=['tdvp1site', 'tdvp2site', 'tdvp', 'ranks_maximal', 'ranks_maximal_tiny', 'ranks_intermediate', 'ranks_rank1', 'ranks_product', 'size1mode', 'complex', 'order>=3', 'multi_step',
                  'truncating']),
     Sub('krylov', krylov_case(), body_krylov, nt, quick=100, thorough=1000, shards_quick=4, budget_quick=150,
-        classes=['krylov', 'complex', 'order>=3']),
+        classes=['krylov', 'complex', 'order>=3', 'unnormalised_start']),
 ]
